@@ -731,6 +731,28 @@ def opDec (A : AnyCodec) (h : String) : String :=
     | .eof => "eof"
     | .panic => "panic"
 
+/-- tie T: the decoders of `TraceInfo`, `ProofOptions`, `Context` over the guards regenerated from the three
+    `read_from` functions on this run (Winter/Model/SerdeGen.lean) must answer like the model's decoders; a
+    difference is appended and so shows up as a disagreement with the compiled code -/
+def genDecDiff (ty h : String) : String :=
+  let kind {α : Type} [BEq α] (m g : Res (α × Bytes)) : String :=
+    match m, g with
+    | .ok (x, r), .ok (y, r') => if x == y && r == r' then "" else " gen=ok-other"
+    | .err, .err => ""
+    | .eof, .eof => ""
+    | .panic, .panic => ""
+    | _, .ok _ => " gen=ok"
+    | _, .err => " gen=err"
+    | _, .eof => " gen=eof"
+    | _, .panic => " gen=panic"
+  match unhex h with
+  | none => ""
+  | some bs =>
+    if ty == "traceinfo" then kind (traceInfo.dec bs) (traceInfoDecG bs)
+    else if ty == "options" then kind (proofOptions.dec bs) (proofOptionsDecG bs)
+    else if ty == "context" then kind (context.dec bs) (contextDecG bs)
+    else ""
+
 def opVint (v : Nat) : String :=
   let b := writeUsize v
   -- tie T: the same through the integer logic regenerated from the Rust source on this run (a difference
@@ -894,7 +916,7 @@ def handle : List String → String
     | none => "-"
   | ["dec", ty, h] =>
     match typeOf ty with
-    | some A => opDec A h
+    | some A => opDec A h ++ genDecDiff ty h
     | none => "-"
   | ["vint", v] =>
     match v.toNat? with
